@@ -1,7 +1,7 @@
 (* C05 -- wire codecs are total, round-trip exactly and follow the RFC 9000 layout.
    Property theorems only; each is closed by [exact] of a lemma proved in proofs/. *)
 From SQ Require Import lib.Base gen.Gen_C05.
-From SQ Require model.Varint proofs.VarintProofs proofs.VarintUpdatedProofs model.Frame proofs.FrameProofs proofs.FrameWf model.PacketHeader proofs.PacketProofs model.TpGrammar proofs.TpGrammarProofs model.PnExpand proofs.PnExpandProofs model.Fit proofs.FitProofs.
+From SQ Require model.Varint proofs.VarintProofs proofs.VarintUpdatedProofs model.Frame proofs.FrameProofs proofs.FrameWf model.PacketHeader proofs.PacketProofs model.TpGrammar proofs.TpGrammarProofs model.PnExpand proofs.PnExpandProofs model.Fit proofs.FitProofs model.ShortBits proofs.ShortBitsProofs.
 Local Open Scope N_scope.
 
 (* ---- variable-length integers (RFC 9000 section 16) ---- *)
@@ -246,6 +246,41 @@ Example C05_pnx_fit_examples :
   /\ Fit.judge [0; 4; 0; 64; 0; 67]%Z [1; 63; 0; 66; 66]%Z = true.
 Proof. repeat split; vm_compute; reflexivity. Qed.
 
+(* ---- first byte of a 1-RTT packet after removing protection (RFC 9000 17.3.1) ---- *)
+Import ShortBits.
+
+(* the masks each header form uses, read from the file that uses them *)
+Theorem C05_reserved_masks : Gen_C05.reserved_mask_short = 24 /\ Gen_C05.reserved_mask_long = 12
+  /\ Gen_C05.spin_mask_short = 32 /\ Gen_C05.key_phase_mask = 4.
+Proof.
+  exact (conj ShortBitsProofs.reserved_mask_short_is_0x18 (conj ShortBitsProofs.reserved_mask_long_is_0x0c
+        (conj ShortBitsProofs.spin_mask_is_0x20 ShortBitsProofs.key_phase_mask_is_0x04))).
+Qed.
+
+(* ... and they are the masks of the executable reference (which spells the RFC's values out) *)
+Theorem C05_source_masks_are_rfc : Gen_C05.reserved_mask_short = rfc_reserved_mask
+  /\ Gen_C05.spin_mask_short = rfc_spin_mask /\ Gen_C05.key_phase_mask = rfc_key_phase_mask
+  /\ Gen_C05.reserved_mask_long <> rfc_reserved_mask.
+Proof. exact ShortBitsProofs.source_masks_are_rfc. Qed.
+
+(* every first byte a sender writes (any spin bit, either key phase, pn length 1..4) is accepted by
+   the receiver and yields the same fields *)
+Theorem C05_short_first_roundtrip : forall spin kp n, In n [1; 2; 3; 4]%nat ->
+  short_fields (short_first spin kp n) = Some (spin, kp, n).
+Proof. exact ShortBitsProofs.short_first_roundtrip. Qed.
+
+(* PROTOCOL_VIOLATION exactly when one of the reserved bits 0x18 is set; spin and key phase free *)
+Theorem C05_short_reject_iff : forall b, 64 <= b < 128 -> (short_fields b = None <-> N.land b 24 <> 0).
+Proof. exact ShortBitsProofs.short_fields_reject_iff. Qed.
+
+(* an accepted byte is the encoding of its fields *)
+Theorem C05_short_fields_first : forall b, 64 <= b < 128 ->
+  forall spin kp n, short_fields b = Some (spin, kp, n) -> short_first spin kp n = b.
+Proof. exact ShortBitsProofs.short_fields_first. Qed.
+
+Theorem C05_shortbits_judge_model : forall case, ShortBits.judge case (ShortBits.run case) = true.
+Proof. exact ShortBitsProofs.judge_run. Qed.
+
 Print Assumptions C05_varint_roundtrip.
 Print Assumptions C05_varint_roundtrip_any_length.
 Print Assumptions C05_varint_size.
@@ -282,3 +317,9 @@ Print Assumptions C05_fit_crypto_within_capacity.
 Print Assumptions C05_fit_error_iff.
 Print Assumptions C05_fit_judge_model.
 Print Assumptions C05_fit_judge_sound.
+Print Assumptions C05_reserved_masks.
+Print Assumptions C05_source_masks_are_rfc.
+Print Assumptions C05_short_first_roundtrip.
+Print Assumptions C05_short_reject_iff.
+Print Assumptions C05_short_fields_first.
+Print Assumptions C05_shortbits_judge_model.
